@@ -40,6 +40,16 @@ def run(tier, seed, replay):
         sp = common.mk_spec(0, [cfg])
         sp["cfg"] = cfg
         bases.append(("names", sp))
+    # packages that only the normal output names (constructor / value / argument), with import paths sorting before, between and
+    # after the imports of the generated file itself: the stub must not keep any of them
+    for nm, svc in [("bytes", {"constructor": "bytes.NewBufferString", "arguments": ["x"]}), ("bufio", {"value": "\"bufio\".ErrTooLong"}),
+                    ("archive", {"constructor": "NewA", "arguments": ["!value \"archive/tar\".TypeReg"]}), ("errors", {"constructor": "errors.New", "arguments": ["x"]}),
+                    ("strings", {"constructor": "strings.NewReader", "arguments": ["x"]}), ("unicode", {"value": "\"unicode/utf8\".RuneError"})]:
+        for extra in ({}, {"g": {"value": "Value", "getter": "GetG", "type": "T"}}):
+            cfg = {"services": dict({"s": svc}, **extra)}
+            sp = common.mk_spec(0, [cfg])
+            sp["cfg"] = cfg
+            bases.append(("normal-only-import:" + nm, sp))
     specs = []
     for kind, sp in bases:
         for stub in (False, True):
